@@ -84,6 +84,11 @@ var (
 		}),
 		LinearisationSqrt: LineariserFunc(math.Sqrt),
 		LinearisationCubeRt: LineariserFunc(func(f float64) float64 {
+			if f < 0 {
+				// Pow is NaN for a negative base with a fractional exponent,
+				// but every real number has a real cube root
+				return -math.Pow(-f, 1./3)
+			}
 			return math.Pow(f, 1./3)
 		}),
 	}
